@@ -561,7 +561,7 @@ func (g *c16Gen) scalar0(srcs []c16Src) (string, string) {
 	for tries := 0; tries < 4; tries++ {
 		switch rapid.IntRange(0, 11).Draw(g.t, "scalar") {
 		case 0, 1, 2:
-			cs := g.plainCols(c16ColsOfType(srcs, "BIGINT", "DOUBLE", "VARCHAR", "BOOLEAN", "TIMESTAMPTZ"))
+			cs := g.plainCols(c16ColsOfType(srcs, "BIGINT", "DOUBLE", "DOUBLE_INEXACT", "VARCHAR", "BOOLEAN", "TIMESTAMPTZ"))
 			if len(cs) == 0 {
 				continue
 			}
@@ -632,10 +632,13 @@ func (g *c16Gen) aggregate(srcs []c16Src) (string, string) {
 			}
 		case 4:
 			if r, _, ok := g.pickCol(srcs, "DOUBLE", "BIGINT"); ok {
-				return "avg(" + r + ")", "DOUBLE"
+				// an average is not a multiple of 0.25: summing such values again
+				// would depend on the summation order in the last bit, so the
+				// result type is kept apart from DOUBLE and only compared/counted
+				return "avg(" + r + ")", "DOUBLE_INEXACT"
 			}
 		case 5:
-			if r, c, ok := g.pickCol(srcs, "BIGINT", "DOUBLE", "VARCHAR", "TIMESTAMPTZ"); ok {
+			if r, c, ok := g.pickCol(srcs, "BIGINT", "DOUBLE", "DOUBLE_INEXACT", "VARCHAR", "TIMESTAMPTZ"); ok {
 				return rapid.SampledFrom([]string{"min", "max"}).Draw(g.t, "minmax") + "(" + r + ")", c.Type
 			}
 		case 6:
@@ -1023,7 +1026,10 @@ func (g *c16Gen) selectStmt(depth int, top bool) []qCol {
 	g.toks = append(g.toks, fromToks...)
 
 	// WHERE
-	if fr.asof == nil || rapid.Bool().Draw(g.t, "asofwhere") {
+	// POSITIONAL JOIN pairs rows by physical position, which SQL does not define
+	// for a multi-file scan: only the bare count(*) (= max of the two row counts)
+	// is independent of the pairing, so no WHERE at all on that shape.
+	if !fr.countOnly && (fr.asof == nil || rapid.Bool().Draw(g.t, "asofwhere")) {
 		np := rapid.IntRange(0, 2).Draw(g.t, "npred")
 		sub := depth < 2 && rapid.IntRange(0, 5).Draw(g.t, "wheresub") == 0
 		if np > 0 || sub {
